@@ -49,7 +49,8 @@ Quiescent(S) == \A t \in DOMAIN S.thr : S.thr[t].pc = "idle"
 InSection(S) == S.lock # 0
 
 \* holds whenever nobody is inside export_and_merge (in particular at quiescence)
-C05_C06_State(S) == ~InSection(S) => \A p \in RegPaths(S.reg) : FileCanonical(S, p) /\ FileWellMerged(S, p)
+\* (a file the environment has moved aside is not the exporter's to answer for until it is back)
+C05_C06_State(S) == ~InSection(S) => \A p \in RegPaths(S.reg) : HiddenByEnv(S, p) \/ (FileCanonical(S, p) /\ FileWellMerged(S, p))
 
 \* C17: failures are values; the lock is never poisoned; a registered name is in its file
 C17_State(S) == /\ ~S.poisoned
